@@ -7,6 +7,7 @@ import (
 
 	"github.com/relab/hotstuff"
 	"github.com/relab/hotstuff/security/crypto"
+	"github.com/relab/hotstuff/zverif/dump"
 	"github.com/relab/hotstuff/zverif/ev"
 	"github.com/relab/hotstuff/zverif/fix"
 	"github.com/relab/hotstuff/zverif/par"
@@ -317,8 +318,17 @@ func c02Config(r *ev.Reporter, scheme string, n int, cache uint, exhaustive bool
 			blk := hotstuff.NewBlock(cl.blk.Hash(), qc, fix.Batch(), cl.view+1, 1)
 			fn = func() error { return ver.VerifyAnyQC(&hotstuff.ProposeMsg{ID: 1, Block: blk}) }
 		}
+		// verification must not modify the objects it is given: signature and public key objects are
+		// shared between concurrent verifications (checked where points are normalised: BLS)
+		before := ""
+		if scheme == crypto.NameBLS12 {
+			before = dump.String(sig, nil) + dump.Fields(c.Cfgs[n-1], nil, "replicas")
+		}
 		acc, pan := verify2(fn)
 		tally(acc, pan)
+		if before != "" && before != dump.String(sig, nil)+dump.Fields(c.Cfgs[n-1], nil, "replicas") {
+			report(kind, "verification modified the signature or public key objects it was given", fmt.Sprintf("%s: the in-memory form of the signature / the verifier's public keys changed during verification", descEntries(entries, func(hotstuff.ID) []byte { return bA.ToBytes() })))
+		}
 		desc := fmt.Sprintf("%s %s claimed=%s", kind, descEntries(entries, func(hotstuff.ID) []byte { return bA.ToBytes() }), cl.name)
 		for i, a := range acc {
 			if a && len(g) < q {
